@@ -125,7 +125,20 @@ class RLECat:
         self.segs = list(segs)
 
 
+class NArr:
+    """numpy array modelled as run-length segments with ELEMENTWISE arithmetic"""
+
+    def __init__(self, segs, truncated_to=None):
+        self.segs = list(segs)
+        self.truncated_to = truncated_to
+
+    def map(self, f):
+        return NArr([(f(x), n) for x, n in self.segs], self.truncated_to)
+
+
 def _segs(v):
+    if isinstance(v, NArr):
+        return list(v.segs)
     if isinstance(v, RLE):
         return [(v.fill, v.length)]
     if isinstance(v, RLECat):
@@ -230,6 +243,8 @@ def canon(v):
         return f"[{canon(v.fill)}]*({canon(v.length)})"
     if isinstance(v, RLECat):
         return " + ".join(f"[{canon(f)}]*({canon(n)})" for f, n in v.segs)
+    if isinstance(v, NArr):
+        return "array(" + " + ".join(f"[{canon(f)}]*({canon(n)})" for f, n in v.segs) + ")"
     if isinstance(v, NewVar):
         return f"LpVariable({canon(v.name)})"
     if isinstance(v, Opaque):
@@ -542,6 +557,8 @@ class Interp:
             items = it.okeys()
         elif isinstance(it, SymRange):
             return self.exec_symbolic_loop(st, it, env)
+        elif isinstance(it, (NArr, RLECat, RLE)):
+            return self.exec_segment_loop(st, it, env)
         if items is None:
             raise Unsupported("for over " + canon(it), st)
         for x in items:
@@ -554,6 +571,37 @@ class Interp:
                 break
         else:
             self.exec_block(st.orelse, env)
+
+    def exec_segment_loop(self, st, it, env):
+        """for x in <run-length list>: body may only append f(x) to lists; executed once per segment and the appended
+        values are re-assembled as run-length segments of the same lengths"""
+        if not isinstance(st.target, ast.Name):
+            raise Unsupported("segment loop target", st)
+        lists = {}
+        for n in ast.walk(ast.Module(body=st.body, type_ignores=[])):
+            if isinstance(n, ast.Call) and isinstance(n.func, ast.Attribute) and n.func.attr == "append" and isinstance(n.func.value, ast.Name):
+                lists[n.func.value.id] = None
+            elif isinstance(n, (ast.Assign, ast.AugAssign)):
+                pass
+        for name in lists:
+            cur = env.get(name)
+            if not (isinstance(cur, PList) and not cur.items):
+                raise Unsupported("segment loop appends to a non-empty list", st)
+        out = {name: [] for name in lists}
+        for fill, length in _segs(it):
+            for name in lists:
+                env[name] = PList([])
+            env[st.target.id] = fill
+            self.exec_block(st.body, env)
+            for name in lists:
+                items = env[name].items
+                if len(items) != 1:
+                    raise Unsupported("segment loop body does not append exactly one value per element", st)
+                out[name].append((items[0], length))
+        for name in lists:
+            r = RLECat(out[name])
+            r.truncated_to = getattr(it, "truncated_to", None)
+            env[name] = r
 
     def exec_symbolic_loop(self, st, rng, env):
         """for j in range(a, N): the body is evaluated once with the loop variable bound to the
@@ -831,6 +879,8 @@ class Interp:
         return self.binop(e.op, a, b, e)
 
     def binop(self, op, a, b, node):
+        if isinstance(a, NArr) or isinstance(b, NArr):
+            return self.narr_binop(op, a, b, node)
         if isinstance(op, ast.Add):
             if isinstance(a, str) or isinstance(b, str):
                 return self.to_str(a, node) + self.to_str(b, node)
@@ -881,9 +931,25 @@ class Interp:
             raise Unsupported(str(ex), node)
         raise Unsupported("binary op " + type(op).__name__, node)
 
+    def narr_binop(self, op, a, b, node):
+        def scalar(x):
+            return isinstance(x, (Rat, Path, NewVar, bool))
+
+        if isinstance(a, NArr) and scalar(b):
+            rb = self.to_rat(b, node)
+            return a.map(lambda x: self.binop(op, self.to_rat(x, node), rb, node))
+        if isinstance(b, NArr) and scalar(a):
+            ra = self.to_rat(a, node)
+            return b.map(lambda x: self.binop(op, ra, self.to_rat(x, node), node))
+        if isinstance(a, NArr) and isinstance(b, NArr) and len(a.segs) == len(b.segs) and all(
+                canon(x[1]) == canon(y[1]) for x, y in zip(a.segs, b.segs)):
+            return NArr([(self.binop(op, self.to_rat(x[0], node), self.to_rat(y[0], node), node), x[1]) for x, y in zip(a.segs, b.segs)],
+                        a.truncated_to)
+        raise Unsupported("array arithmetic with mismatched shapes", node)
+
     def repeat(self, lst, n, node):
         n = self.to_rat(n, node)
-        if n.is_const():
+        if n.is_const() and (n.as_int() <= 24 or len(lst.items) != 1):
             return PList(lst.items * n.as_int())
         if len(lst.items) == 1:
             return RLE(lst.items[0], n)
@@ -1007,9 +1073,56 @@ class Interp:
     def e_Subscript(self, e, env):
         obj = self.eval(e.value, env)
         if isinstance(e.slice, ast.Slice):
-            raise Unsupported("slice", e)
+            return self.getslice(obj, e.slice, env, e)
         key = self.eval(e.slice, env)
         return self.getitem(obj, key, e)
+
+    def getslice(self, obj, sl, env, node):
+        lo = self.eval(sl.lower, env) if sl.lower is not None else None
+        hi = self.eval(sl.upper, env) if sl.upper is not None else None
+        if sl.step is not None:
+            raise Unsupported("slice step", node)
+
+        def const(v):
+            return v is None or (isinstance(v, Rat) and v.is_const() and v.const_value().denominator == 1)
+
+        if isinstance(obj, (PList, tuple)) and const(lo) and const(hi):
+            items = obj.items if isinstance(obj, PList) else list(obj)
+            a = None if lo is None else lo.as_int()
+            b = None if hi is None else hi.as_int()
+            return PList(items[a:b])
+        tag = f"[{canon(lo) if lo is not None else ''}:{canon(hi) if hi is not None else ''}]"
+        if isinstance(obj, (RLE, RLECat, NArr)) and const(lo) and const(hi):
+            segs = _segs(obj)
+            if all(isinstance(n, Rat) and n.is_const() for _, n in segs) and sum(n.as_int() for _, n in segs) <= 5000:
+                flat = [f for f, n in segs for _ in range(n.as_int())]
+                a = None if lo is None else lo.as_int()
+                b = None if hi is None else hi.as_int()
+                flat = flat[a:b]
+                out = []
+                for f in flat:
+                    if out and canon(out[-1][0]) == canon(f):
+                        out[-1] = (out[-1][0], out[-1][1] + Rat.const(1))
+                    else:
+                        out.append((f, Rat.const(1)))
+                return NArr(out) if isinstance(obj, NArr) else RLECat(out)
+        if isinstance(obj, (RLE, RLECat, PList, NArr)):
+            # symbolic truncation of a (long) list: keep the segments, remember the bound
+            segs = _segs(obj)
+            if lo is None or (isinstance(lo, Rat) and lo.is_zero()):
+                out = NArr(segs, hi) if isinstance(obj, NArr) else RLECat(segs)
+                out.truncated_to = hi
+                return out
+            raise Unsupported("symbolic slice start on a list", node)
+        if isinstance(obj, Path):
+            if obj.idx is not None:
+                raise Unsupported("slice of an indexed path", node)
+            return Path(obj.parts + (tag,), None)
+        if isinstance(obj, Opaque):
+            return Opaque(obj.name + tag)
+        if isinstance(obj, Rat):
+            return Rat.atom(("slice", str(obj), tag))
+        raise Unsupported(f"slice of {canon(obj)}", node)
 
     def getitem(self, obj, key, node):
         if isinstance(obj, PDict):
@@ -1025,6 +1138,19 @@ class Interp:
             return items[r.as_int()]
         if isinstance(obj, RLE):
             return obj.fill
+        if isinstance(obj, (NArr, RLECat)):
+            r = self.to_rat(key, node)
+            if r.is_const():
+                i = r.as_int()
+                pos = 0
+                for fill, n in obj.segs:
+                    nn = self.to_rat(n, node) if not isinstance(n, tuple) else None
+                    if nn is None or not nn.is_const():
+                        break
+                    if pos <= i < pos + nn.as_int():
+                        return fill
+                    pos += nn.as_int()
+            raise Unsupported("index into a run-length array not decidable", node)
         if isinstance(obj, VarsDict):
             k = self.dkey(key, node)
             if k in obj.extra:
@@ -1114,6 +1240,13 @@ class Interp:
                 return Rat.const(len(v.d))
             if isinstance(v, RLE):
                 return v.length
+            if isinstance(v, (NArr, RLECat)):
+                if getattr(v, "truncated_to", None) is not None:
+                    return self.to_rat(v.truncated_to, e)
+                tot = Rat.const(0)
+                for _, n in v.segs:
+                    tot = tot + self.to_rat(n, e)
+                return tot
             if isinstance(v, str):
                 return Rat.const(len(v))
             return Rat.atom(("len", canon(v)))
